@@ -5,3 +5,5 @@ INVARIANT J_NoForeignIds
 INVARIANT J_TourNamesVehicleShift
 INVARIANT J_TourServesJob
 INVARIANT J_TourUniqueVehicleShift
+INVARIANT J_PickupBeforeDelivery
+INVARIANT J_ConditionalWithinDefined
